@@ -201,6 +201,67 @@ func runNum() {
 		}
 		emit("P.un", ev)
 	}
+	// ---------------- sequences: a NatPlus that was already USED as a modulus (its reduction context is cached lazily), then a
+	// value derived from it (Increment, Decrement, Double, Square, Lsh, TryRsh, Add, Mul, Clone) used as a modulus itself
+	for x := int64(2); x <= 4*B; x++ {
+		for _, opn := range []string{"inc", "dec", "dbl", "sq", "lsh1", "rsh1", "add3", "mul3", "clone"} {
+			ev := map[string]any{"x": x, "op": opn}
+			safely("P.seq", ev, func() {
+				p := nP(x)
+				// warm every lazily built cache of p
+				_ = nZ(7*x+3, 40).Mod(p)
+				_ = p.ModulusCT()
+				if zn, err := num.NewZMod(p); err == nil {
+					_, _ = zn.FromInt64(5)
+				}
+				var d *num.NatPlus
+				var err error
+				switch opn {
+				case "inc":
+					d = p.Increment()
+				case "dec":
+					d, err = p.Decrement()
+				case "dbl":
+					d = p.Double()
+				case "sq":
+					d = p.Square()
+				case "lsh1":
+					d = p.Lsh(1)
+				case "rsh1":
+					d, err = p.TryRsh(1)
+				case "add3":
+					d = p.Add(nP(3))
+				case "mul3":
+					d = p.Mul(nP(3))
+				case "clone":
+					d = p.Clone()
+				}
+				if err != nil || d == nil {
+					ev["ok"] = false
+					ev["d"], ev["ys"], ev["rz"], ev["rn"], ev["ru"], ev["pafter"] = 0, []int64{}, []int64{}, []int64{}, []int64{}, proj(p.Big())
+					emit("P.seq", ev)
+					return
+				}
+				ev["ok"], ev["d"] = true, proj(d.Big())
+				ys := []int64{0, 1, x - 1, x, x + 1, 2*x + 1, x*x + 3, 25, 5000021 % (40 * B * B)}
+				rz, rn, ru := []int64{}, []int64{}, []int64{}
+				for _, y := range ys {
+					rz = append(rz, proj(nZ(y, 40).Mod(d).Big()))
+					rn = append(rn, proj(nN(y, capNT(y, 40)).Mod(d).Big()))
+					u := int64(-1)
+					if zn, err := num.NewZMod(d); err == nil {
+						if v, err := zn.FromInt64(y); err == nil {
+							u = proj(v.Big())
+						}
+					}
+					ru = append(ru, u)
+				}
+				ev["ys"], ev["rz"], ev["rn"], ev["ru"] = ys, rz, rn, ru
+				ev["pafter"] = proj(p.Big()) // the operand itself is unchanged
+				emit("P.seq", ev)
+			})
+		}
+	}
 	// ---------------- Zn (Uint)
 	for m := int64(1); m <= B; m++ {
 		zn, err := num.NewZMod(nP(m))
